@@ -1,5 +1,6 @@
 import FrappyProofs.Lemmas.Update
 import FrappyProofs.Lemmas.UpdateSys
+import FrappyProofs.Lemmas.UpdateAct
 import FrappyModel.Generated.C05
 /-
 C05 — property theorems (nothing but property theorems and their non-vacuity examples).
@@ -7,6 +8,9 @@ C05 — property theorems (nothing but property theorems and their non-vacuity e
 set_option linter.unusedSectionVars false
 namespace Frappy.Props.C05
 open Frappy.Update Frappy.Spec.C05
+
+/-- (for the examples) values and errors are numbers, `!=` is inequality, every conversion succeeds -/
+def exO' : Oracle Nat Nat := ⟨fun a b => a == b, fun v => .ok v, fun v => .ok v⟩
 
 section sequential
 variable {V E X : Type} [DecidableEq E]
@@ -131,6 +135,16 @@ theorem change_announced (o : Oracle V E) (e : Entry V E) (now : Int) :
   · intro v hv; unfold announceR; rw [emits_changed o e now v hv]; simp
   · intro x hx; unfold announceR; rw [emits_error o e now x hx]; simp
 
+/-- A parameter that is not exported never produces a message (and its cache entry evolves as that of any other);
+for an exported one `announceX` is the funnel. -/
+theorem unexported_silent (o : Oracle V E) (e : Entry V E) (now : Int) (r : VE V E) :
+    (announceX false o e now r).msg = none ∧ (announceX false o e now r).entry = (announceR o e now r).entry ∧
+    announceX true o e now r = announceR o e now r := by
+  simp [announceX]
+
+example : (announceX false exO' ⟨5, none, 100, 0⟩ 101 (.val 6)).entry.value = 6 ∧
+    (announceR exO' ⟨5, none, 100, 0⟩ 101 (.val 6)).msg ≠ none := by decide
+
 /-! ### parameter callbacks -/
 
 /-- The `except` clause around the call of a parameter callback (regenerated from the source on every run) catches
@@ -187,6 +201,70 @@ theorem callback_escape_breaks (caught : CbOutcome → Bool) (oc : CbOutcome) (h
 /-- and catching `TypeError` only (the seeded change C05-m3) does leave `other` uncaught -/
 example : catches ["TypeError"] .other = false ∧ catches ["TypeError"] .typeError = true := by decide
 
+/-! ### activation: the client knows nothing before its snapshot -/
+
+/-- The snapshot covers every parameter the connection subscribes to: replaying it — starting from NOTHING — leaves the
+client with a state for each of these parameters, and it is the cached value-or-error; every snapshot message is built
+from the cache entry (state and time stamp). -/
+theorem snapshot_covers (ex : V → X) (es : Nat → Entry V E) (ps : List Nat) :
+    (∀ p ∈ ps, replayO none ((projM p (snapshot es ps)).map (fun m => m.ve.map ex)) = some ((es p).ve.map ex)) ∧
+    (∀ m ∈ snapshot es ps, m.2 = mkMsg (es m.1)) ∧
+    (∀ p, p ∉ ps → projM p (snapshot es ps) = []) := by
+  refine ⟨fun p hp => ?_, ?_, fun p hp => ?_⟩
+  · apply replayO_all
+    · intro hnil
+      have hmem : (p, mkMsg (es p)) ∈ snapshot es ps := List.mem_map.2 ⟨p, hp, rfl⟩
+      have hin : mkMsg (es p) ∈ projM p (snapshot es ps) := by
+        simp only [projM, List.mem_map, List.mem_filter]
+        exact ⟨(p, mkMsg (es p)), ⟨hmem, by simp⟩, rfl⟩
+      rw [List.map_eq_nil_iff] at hnil
+      rw [hnil] at hin
+      cases hin
+    · intro m hm
+      rw [List.mem_map] at hm
+      obtain ⟨m', hm', rfl⟩ := hm
+      simp only [projM, List.mem_map, List.mem_filter] at hm'
+      obtain ⟨pm, ⟨hpm, hq⟩, rfl⟩ := hm'
+      simp only [snapshot, List.mem_map] at hpm
+      obtain ⟨q, _, rfl⟩ := hpm
+      simp only [beq_iff_eq] at hq
+      subst hq; rfl
+  · intro m hm
+    simp only [snapshot, List.mem_map] at hm
+    obtain ⟨q, _, rfl⟩ := hm
+    rfl
+  · simp only [projM, snapshot, List.map_eq_nil_iff, List.filter_eq_nil_iff, List.mem_map]
+    rintro m ⟨q, hq, rfl⟩
+    simp only [beq_iff_eq]
+    intro h; exact hp (h ▸ hq)
+
+/-- A connection that activates when the entry is `e` and then sees any history of calls: after the activation and
+after every later call, replaying what it received — starting from nothing — gives the cached value-or-error. -/
+theorem activate_then_history (o : Oracle V E) (ex : V → X) (h : ExportExact o ex) (e : Entry V E) (evs : List (TEv V E)) :
+    ReconstructsO none (⟨[(mkMsg e).ve.map ex], e.ve.map ex⟩ :: (trace o e evs).map (obsOf ex)) := by
+  simp only [ReconstructsO]
+  refine ⟨rfl, ?_⟩
+  have : replayO (none : Option (VE X E)) [(mkMsg e).ve.map ex] = some (e.ve.map ex) := rfl
+  rw [this, reconstructsO_some]
+  exact reconstructs o ex h e evs
+
+/-- … and the same for the whole stream at once: snapshot followed by the messages of the history. -/
+theorem activate_replay_eq_cache (o : Oracle V E) (ex : V → X) (h : ExportExact o ex) (e : Entry V E)
+    (evs : List (TEv V E)) :
+    replayO none (((mkMsg e) :: (run o e evs).msgs).map (fun m => m.ve.map ex)) = some ((run o e evs).entry.ve.map ex) := by
+  have := replay_eq_cache o ex h e evs
+  simp only [List.map_cons]
+  show replayO (some ((mkMsg e).ve.map ex)) _ = _
+  rw [replayO_some]
+  exact congrArg some this
+
+/-- Facts about `Dispatcher.handle_activate` the model relies on (regenerated from the source on every run): every
+`send_reply` of the snapshot stands inside a `with <module>.updateLock` block, and the connection is registered as a
+listener before the first such block is entered. -/
+theorem activate_shape :
+    Frappy.Generated.C05.snapshotSentUnderUpdateLock = true ∧ Frappy.Generated.C05.registeredBeforeSnapshot = true := by
+  decide
+
 end sequential
 
 
@@ -194,54 +272,60 @@ section concurrent
 open Frappy.UpdateSys
 variable {V E X : Type} [DecidableEq E]
 
-/-- Mutual exclusion: at most one thread is between `acquire` and `release` of the module's update lock. -/
+/-- Mutual exclusion: at most one thread is between `acquire` and `release` of the module's update lock — be it
+inside the funnel or sending the snapshot of an activation. -/
 theorem one_thread_inside (c : Cfg V E) (init : Pid → Entry V E) (progs : Tid → List (Op V E)) (clock : Int)
-    (s : Sys V E) (hn : c.conns.Nodup) (hr : Reach c (Sys.init init progs clock) s) (t t' : Tid)
-    (ht : (s.thr t).pc ≠ .idle) (ht' : (s.thr t').pc ≠ .idle) : t = t' := by
+    (s : Sys V E) (hn : c.conns.Nodup) (hr : Reach c (Sys.init init progs clock c.act0) s) (t t' : Tid)
+    (ht : inU (s.thr t).pc = true) (ht' : inU (s.thr t').pc = true) : t = t' := by
   have hi := inv_reach hn hr
   have h1 := owner_of_busy hi t ht
   have h2 := owner_of_busy hi t' ht'
   rw [h1] at h2
   exact Option.some.inj h2
 
-/-- Lock order: whoever holds the dispatcher's subscription lock holds the module's update lock (it is only taken
-around the notifications, inside the critical section). -/
+/-- Lock order: a thread that notifies (`broadcast_event`) holds the subscription lock AND the module's update lock;
+the subscription lock has one holder, and a thread registering a connection under it is not inside the update lock
+(it takes the update lock only after releasing the subscription lock). -/
 theorem sub_lock_nested (c : Cfg V E) (init : Pid → Entry V E) (progs : Tid → List (Op V E)) (clock : Int)
-    (s : Sys V E) (hn : c.conns.Nodup) (hr : Reach c (Sys.init init progs clock) s) (t : Tid)
-    (h : s.slock = some t) : s.lock = some t := by
+    (s : Sys V E) (hn : c.conns.Nodup) (hr : Reach c (Sys.init init progs clock c.act0) s) (t : Tid)
+    (h : holdsS (s.thr t).pc = true) :
+    s.slock = some t ∧ (inU (s.thr t).pc = true → s.lock = some t) ∧
+    (∀ t', holdsS (s.thr t').pc = true → t' = t) := by
   have hi := inv_reach hn hr
-  cases hl : s.lock with
-  | none => have := hi.slFree hl; rw [this] at h; cases h
-  | some t0 =>
-    have := hi.slOwner t0 hl
-    rw [this] at h
-    split at h
-    · cases h; rfl
-    · cases h
+  refine ⟨hi.slHeld t h, hi.owner t, fun t' h' => ?_⟩
+  have h1 := hi.slHeld t h
+  have h2 := hi.slHeld t' h'
+  rw [h1] at h2
+  exact (Option.some.inj h2).symm
 
-/-- For every schedule of any number of threads, in every reachable state, what an activated connection has
-received for a parameter is the message list of a sequential run of the funnel on that parameter: the run of
-the calls completed so far (`s.hist p`, in the order the lock was released), followed by the call in flight
-if this connection has already been notified of it. -/
+/-- For every schedule of any number of threads — funnel calls AND activation requests — in every reachable state,
+what a connection that was activated before the run (and not re-activated: `Stat`) has received for a parameter is the
+message list of a sequential run of the funnel on that parameter: the run of the calls completed so far (`s.hist p`,
+in the order the lock was released), followed by the call in flight if this connection has already been notified of it. -/
 theorem interleaving_atomic (c : Cfg V E) (init : Pid → Entry V E) (progs : Tid → List (Op V E)) (clock : Int)
-    (s : Sys V E) (hn : c.conns.Nodup) (hr : Reach c (Sys.init init progs clock) s)
-    (k : Cid) (hk : k ∈ c.conns) (p : Pid) :
+    (s : Sys V E) (hn : c.conns.Nodup) (hr : Reach c (Sys.init init progs clock c.act0) s)
+    (k : Cid) (p : Pid) (hk : Stat c s p k) :
     ∃ evs : List (REv V E), plog s k p = (runR c.o (init p) evs).msgs ∧
       (evs = s.hist p ∨ ∃ x, evs = s.hist p ++ [x]) := by
   have hi := inv_reach hn hr
   have clean : Clean c init s p → ∃ evs : List (REv V E), plog s k p = (runR c.o (init p) evs).msgs ∧
       (evs = s.hist p ∨ ∃ x, evs = s.hist p ++ [x]) := fun h => ⟨s.hist p, h.2 k hk, Or.inl rfl⟩
   cases hl : s.lock with
-  | none => exact clean ((hi.unlocked hl).2 p)
+  | none => exact clean (hi.unlocked hl p)
   | some t =>
-    obtain ⟨_, p', hp', hcl, hmid⟩ := hi.locked t hl
-    by_cases hpp : p = p'
-    · subst hpp
+    obtain ⟨_, hcl, hmid⟩ := hi.locked t hl
+    by_cases hpp : pcPid (s.thr t).pc = some p
+    · have hmid := hmid p hpp
       have same : plog s k p = (seqRun c init s p).msgs → ∃ evs : List (REv V E),
           plog s k p = (runR c.o (init p) evs).msgs ∧ (evs = s.hist p ∨ ∃ x, evs = s.hist p ++ [x]) :=
         fun h => ⟨s.hist p, h, Or.inl rfl⟩
       cases hpc : (s.thr t).pc with
-      | idle => rw [hpc] at hp'; cases hp'
+      | idle => rw [hpc] at hpp; cases hpp
+      | actD _ _ => rw [hpc] at hpp; cases hpp
+      | actS _ _ => rw [hpc] at hpp; cases hpp
+      | actR _ _ => rw [hpc] at hpp; cases hpp
+      | snap _ _ => rw [hpc] at hpp; cases hpp
+      | actE => rw [hpc] at hpp; cases hpp
       | locked _ _ _ => rw [hpc] at hmid; exact same (hmid.2 k hk)
       | timed _ _ _ => rw [hpc] at hmid; exact same (hmid.2 k hk)
       | compared _ _ _ _ => rw [hpc] at hmid; exact same (hmid.2.2 k hk)
@@ -250,21 +334,26 @@ theorem interleaving_atomic (c : Cfg V E) (init : Pid → Entry V E) (progs : Ti
       | stamped _ _ _ => rw [hpc] at hmid; exact same (hmid.2.2 k hk)
       | errset _ _ _ => rw [hpc] at hmid; exact same (hmid.2.2 k hk)
       | built _ _ _ _ => rw [hpc] at hmid; exact same (hmid.2.2.2 k hk)
-      | sending _ now r m rest =>
-        rw [hpc] at hmid
-        obtain ⟨h1, h2, h3, done, h4, h5, h6⟩ := hmid
-        rw [h4, List.mem_append] at hk
-        rcases hk with hk | hk
-        · refine ⟨s.hist p ++ [⟨now, r⟩], ?_, Or.inr ⟨_, rfl⟩⟩
-          have h2' : emits c.o (runR c.o (init p) (s.hist p)).entry now r = true := h2
+      | sending p' now r m rest =>
+        rw [hpc] at hmid hpp
+        simp only [pcPid, Option.some.injEq] at hpp
+        subst hpp
+        obtain ⟨h1, h2, h3, done, _, hall, h5, h6⟩ := hmid
+        have hkm := hall k hk
+        rw [List.mem_append] at hkm
+        rcases hkm with hkm | hkm
+        · refine ⟨s.hist p' ++ [⟨now, r⟩], ?_, Or.inr ⟨_, rfl⟩⟩
+          have h2' : emits c.o (runR c.o (init p') (s.hist p')).entry now r = true := h2
           simp only [runR_snoc, announceR_go _ _ _ _ h2']
-          have := h5 k hk
+          have := h5 k hkm hk
           simp only at this
           rw [this, h3, h1]; rfl
-        · exact same (h6 k hk)
-      | leaving _ now r =>
-        rw [hpc] at hmid
-        refine ⟨s.hist p ++ [⟨now, r⟩], ?_, Or.inr ⟨_, rfl⟩⟩
+        · exact same (h6 k hkm hk)
+      | leaving p' now r =>
+        rw [hpc] at hmid hpp
+        simp only [pcPid, Option.some.injEq] at hpp
+        subst hpp
+        refine ⟨s.hist p' ++ [⟨now, r⟩], ?_, Or.inr ⟨_, rfl⟩⟩
         rw [runR_snoc]
         exact hmid.2 k hk
     · exact clean (hcl p hpp)
@@ -274,7 +363,7 @@ completed calls (`ghist`, in the order the update lock was released) is an inter
 its projection onto thread `t` is the beginning of the calls `t`'s program makes, in program order (all of them once
 `t` has finished), and its projection onto parameter `p` is `hist p`. -/
 theorem hist_is_interleaving (c : Cfg V E) (init : Pid → Entry V E) (progs : Tid → List (Op V E)) (clock : Int)
-    (s : Sys V E) (hr : Reach c (Sys.init init progs clock) s) :
+    (s : Sys V E) (hr : Reach c (Sys.init init progs clock c.act0) s) :
     (∀ t, ∃ rest, annR c.o (progs t) = doneBy t s.ghist ++ rest) ∧
     (∀ t, finished s t = true → doneBy t s.ghist = annR c.o (progs t)) ∧
     (∀ p, s.hist p = onParam p s.ghist) := by
@@ -288,33 +377,42 @@ theorem hist_is_interleaving (c : Cfg V E) (init : Pid → Entry V E) (progs : T
     simpa [inflight, annR] using ht
   · cases hf
 
-/-- When no call is in flight, cache and logs of every parameter are exactly those of the sequential run of
-the completed calls. -/
+/-- When the update lock is free, cache and logs of every parameter are exactly those of the sequential run of
+the completed calls (logs: of the connections activated before the run and not re-activated). -/
 theorem quiescent_is_sequential (c : Cfg V E) (init : Pid → Entry V E) (progs : Tid → List (Op V E)) (clock : Int)
-    (s : Sys V E) (hn : c.conns.Nodup) (hr : Reach c (Sys.init init progs clock) s) (hq : s.lock = none) (p : Pid) :
+    (s : Sys V E) (hn : c.conns.Nodup) (hr : Reach c (Sys.init init progs clock c.act0) s) (hq : s.lock = none)
+    (p : Pid) :
     s.entries p = (runR c.o (init p) (s.hist p)).entry ∧
-    ∀ k ∈ c.conns, plog s k p = (runR c.o (init p) (s.hist p)).msgs :=
-  ((inv_reach hn hr).unlocked hq).2 p
+    ∀ k, Stat c s p k → plog s k p = (runR c.o (init p) (s.hist p)).msgs :=
+  (inv_reach hn hr).unlocked hq p
+
+/-- the connections that receive exactly the updates of `p`: subscribed before the run, no snapshot since -/
+def statConns (c : Cfg V E) (s : Sys V E) (p : Pid) : List Cid :=
+  c.conns.filter (fun k => c.act0 k p && !s.snapped k p)
 
 /-- The statement for any number of threads and any schedule: at quiescence, replaying what a connection
 received reproduces the cache; every message was delivered while the cache held the state it carries; all
-activated connections received the same sequence. -/
+connections activated all along received the same sequence. -/
 theorem conc_ok (c : Cfg V E) (ex : V → X) (h : ExportExact c.o ex) (init : Pid → Entry V E)
     (progs : Tid → List (Op V E)) (clock : Int) (s : Sys V E) (hn : c.conns.Nodup)
-    (hr : Reach c (Sys.init init progs clock) s) (hq : s.lock = none) (p : Pid) :
+    (hr : Reach c (Sys.init init progs clock c.act0) s) (hq : s.lock = none) (p : Pid) :
     ConcOk (S := VE X E) ⟨(init p).ve.map ex,
-      c.conns.map (fun k => (s.logs k p).map (fun d => ⟨d.msg.ve.map ex, d.seen.map ex⟩)),
+      (statConns c s p).map (fun k => (s.logs k p).map (fun d => ⟨d.msg.ve.map ex, d.seen.map ex⟩)),
       (s.entries p).ve.map ex⟩ := by
   have hi := inv_reach hn hr
   obtain ⟨he, hlg⟩ := quiescent_is_sequential c init progs clock s hn hr hq p
   have hmap : ∀ k, ((s.logs k p).map (fun d => (⟨d.msg.ve.map ex, d.seen.map ex⟩ : Delivered (VE X E)))).map (·.msg) =
       (plog s k p).map (fun m => m.ve.map ex) := by
     intro k; simp [plog, List.map_map, Function.comp_def]
+  have hst : ∀ k, k ∈ statConns c s p → Stat c s p k := by
+    intro k hk
+    simp only [statConns, List.mem_filter, Bool.and_eq_true, Bool.not_eq_eq_eq_not, Bool.not_true] at hk
+    exact ⟨hk.1, hk.2.1, hk.2.2⟩
   refine ⟨?_, ?_, ?_⟩
   · intro l hl
     simp only [List.mem_map] at hl
     obtain ⟨k, hk, rfl⟩ := hl
-    rw [hmap, hlg k hk, he]
+    rw [hmap, hlg k (hst k hk), he]
     exact replay_runR c.o ex h (init p) (s.hist p)
   · intro l hl d hd
     simp only [List.mem_map] at hl
@@ -326,7 +424,76 @@ theorem conc_ok (c : Cfg V E) (ex : V → X) (h : ExportExact c.o ex) (init : Pi
     simp only [List.mem_map] at hl hl'
     obtain ⟨k, hk, rfl⟩ := hl
     obtain ⟨k', hk', rfl⟩ := hl'
-    rw [hmap, hmap, hlg k hk, hlg k' hk']
+    rw [hmap, hmap, hlg k (hst k hk), hlg k' (hst k' hk')]
+
+/-! ### connections activated while the funnel is in use -/
+
+/-- For every schedule of funnel calls and activation requests, in EVERY reachable state: a connection that is entitled
+to the state of parameter `p` — subscribed before the run, or sent the snapshot of `p` during it — knows exactly what the
+cache holds for `p` (newest message wins, starting from what it knew at the start: the cache if it was subscribed,
+NOTHING otherwise), whenever no call of `p`'s funnel is in flight.  Other parameters may be in the middle of a call,
+other connections in the middle of their activation. -/
+theorem activation_coherent (c : Cfg V E) (ex : V → X) (h : ExportExact c.o ex) (init : Pid → Entry V E)
+    (progs : Tid → List (Op V E)) (clock : Int) (s : Sys V E) (hn : c.conns.Nodup)
+    (hr : Reach c (Sys.init init progs clock c.act0) s) (k : Cid) (p : Pid) (hk : Sub c s k p)
+    (hfree : ∀ t, pcPid (s.thr t).pc ≠ some p) :
+    replayO (known0 c ex init k p) ((plog s k p).map (fun m => m.ve.map ex)) = some ((s.entries p).ve.map ex) := by
+  obtain ⟨hi, hc⟩ := coh_reach h hn hr
+  have hkn := hc.know k p hk
+  unfold knowsAfter at hkn
+  rw [hkn]
+  cases hl : s.lock with
+  | none => rw [expectS_free p k hl, (hi.unlocked hl p).1]
+  | some t => rw [expectS_other k hl (hfree t), ((hi.locked t hl).2.1 p (hfree t)).1]
+
+/-- A snapshot is only ever sent to a connection that `broadcast_event` already selects for that parameter (so no
+update can fall between registration and snapshot), and every message of every log — snapshot or update — was
+delivered while the cache held the state it carries. -/
+theorem snapshot_after_registration (c : Cfg V E) (ex : V → X) (h : ExportExact c.o ex) (init : Pid → Entry V E)
+    (progs : Tid → List (Op V E)) (clock : Int) (s : Sys V E) (hn : c.conns.Nodup)
+    (hr : Reach c (Sys.init init progs clock c.act0) s) :
+    (∀ k p, s.snapped k p = true → s.act k p = true) ∧ (∀ k p, ∀ d ∈ s.logs k p, d.msg.ve = d.seen) := by
+  obtain ⟨hi, hc⟩ := coh_reach h hn hr
+  exact ⟨hc.subAct, hi.seenOk⟩
+
+/-- The statement at quiescence with connections activated before AND during the run (`ConcOkA`): every activated
+connection has a state for the parameter and it is the cached one; every delivery happened while the cache held the
+delivered state; the connections activated all along received the same sequence. -/
+theorem conc_ok_activation (c : Cfg V E) (ex : V → X) (h : ExportExact c.o ex) (init : Pid → Entry V E)
+    (progs : Tid → List (Op V E)) (clock : Int) (s : Sys V E) (hn : c.conns.Nodup)
+    (hr : Reach c (Sys.init init progs clock c.act0) s) (hq : s.lock = none) (p : Pid) :
+    ConcOkA (S := VE X E) ⟨c.conns.map (fun k => ⟨known0 c ex init k p, c.act0 k p || s.snapped k p,
+        c.act0 k p && !s.snapped k p, (s.logs k p).map (fun d => ⟨d.msg.ve.map ex, d.seen.map ex⟩)⟩),
+      (s.entries p).ve.map ex⟩ := by
+  obtain ⟨hi, _⟩ := coh_reach h hn hr
+  have hmap : ∀ k, ((s.logs k p).map (fun d => (⟨d.msg.ve.map ex, d.seen.map ex⟩ : Delivered (VE X E)))).map (·.msg) =
+      (plog s k p).map (fun m => m.ve.map ex) := by
+    intro k; simp [plog, List.map_map, Function.comp_def]
+  have hfree : ∀ t, pcPid (s.thr t).pc ≠ some p := by
+    intro t hp
+    have := hi.owner t (inU_of_pcPid hp)
+    rw [hq] at this; cases this
+  refine ⟨?_, ?_, ?_⟩
+  · intro cl hcl hact
+    simp only [List.mem_map] at hcl
+    obtain ⟨k, hk, rfl⟩ := hcl
+    simp only [Bool.or_eq_true] at hact
+    simp only [hmap]
+    exact activation_coherent c ex h init progs clock s hn hr k p ⟨hk, hact⟩ hfree
+  · intro cl hcl d hd
+    simp only [List.mem_map] at hcl
+    obtain ⟨k, _, rfl⟩ := hcl
+    simp only [List.mem_map] at hd
+    obtain ⟨d', hd', rfl⟩ := hd
+    rw [hi.seenOk k p d' hd']
+  · intro cl hcl cl' hcl' hf hf'
+    simp only [List.mem_map] at hcl hcl'
+    obtain ⟨k, hk, rfl⟩ := hcl
+    obtain ⟨k', hk', rfl⟩ := hcl'
+    simp only [Bool.and_eq_true, Bool.not_eq_eq_eq_not, Bool.not_true] at hf hf'
+    have hlg := (hi.unlocked hq p).2
+    simp only [hmap]
+    rw [hlg k ⟨hk, hf.1, hf.2⟩, hlg k' ⟨hk', hf'.1, hf'.2⟩]
 
 end concurrent
 
@@ -385,13 +552,13 @@ example : (announceM exO (catches Frappy.Generated.C05.callbackCaught) (fun _ =>
       [⟨some ⟨1, 101, .val 6, []⟩, .other⟩, ⟨some ⟨2, 101, .val 7, [.typeError]⟩, .ok⟩]).msgs.map (fun m => (m.1, m.2.ve)) =
     [(1, .val 6), (2, .val 7), (0, .val 6)] := by decide
 
-def exCfg : Cfg Nat Nat := ⟨exO, [1, 2], 1⟩
+def exCfg : Cfg Nat Nat := ⟨exO, [1, 2], 1, fun _ _ => true⟩
 def exProgs : Tid → List (Op Nat Nat)
   | 0 => [.accAcquire, .announce 0 (.value 6 false) .absent, .accRelease]
   | 1 => [.announce 0 (.error 1) (.ticks 0)]
   | _ => []
 def exInit : Pid → Entry Nat Nat := fun _ => exE
-def exS0 : Sys Nat Nat := Sys.init exInit exProgs 101
+def exS0 : Sys Nat Nat := Sys.init exInit exProgs 101 exCfg.act0
 
 /-- thread 0 takes the access lock and the update lock, thread 1 is blocked at `acquire` (its step is not
 enabled) until thread 0 has notified both connections and released -/
@@ -413,6 +580,65 @@ example : ∃ s, Reach exCfg exS0 s ∧ s.lock = none ∧ (s.logs 1 0).map (·.m
     rw [h] at hd
     simp only [Option.map_some, Option.some.injEq, Prod.mk.injEq] at hd
     exact ⟨s, reach_of_runSched _ _ _ _ .start _ h, hd.1, hd.2⟩
+
+/-! activation -/
+
+/-- snapshot of parameters 0 and 2 where parameter 2 is in error: one message each, the error as `error_update` -/
+example : (snapshot (fun p => if p = 2 then (⟨5, some 9, 0, 10⟩ : Entry Nat Nat) else exE) [0, 2]).map (fun m => (m.1, m.2.ve, m.2.t)) =
+    [(0, .val 5, 100), (2, .err 9, 0)] := by decide
+
+/-- a client activating on `exE` and then seeing `exHist` ends with the cached 6, starting from nothing -/
+example : replayO none (((mkMsg exE) :: (run exO exE exHist).msgs).map (·.ve)) = some (.val 6) := by decide
+
+/-- a client that is sent nothing knows nothing: the monitor names the clause -/
+example : judgeO (S := VE Nat Nat) (fun s => s matches .err _) (.err 1) [⟨[], .err 1⟩] =
+    some (0, "no-state-after-activation") := by decide
+
+example : judgeO (S := VE Nat Nat) (fun s => s matches .err _) (.err 1) [⟨[.err 1], .err 1⟩, ⟨[.val 5], .val 5⟩] = none := by
+  decide
+
+/-- connections 1 and 2 are activated before the run, connection 3 activates during it -/
+def exCfgA : Cfg Nat Nat := ⟨exO, [1, 2, 3], 1, fun k _ => k != 3⟩
+def exProgsA : Tid → List (Op Nat Nat)
+  | 0 => [.announce 0 (.value 6 false) .absent]
+  | 1 => [.activate 3 [0]]
+  | _ => []
+def exSA : Sys Nat Nat := Sys.init exInit exProgsA 101 exCfgA.act0
+
+/-- thread 1 registers connection 3, thread 0 makes its call (connection 3 is already a listener: it gets the update),
+then thread 1 sends the snapshot: connection 3 received `6, 6`, connections 1 and 2 `6` -/
+def exSchedA : List Tid := [1, 1, 1] ++ List.replicate 14 0 ++ [1, 1, 1, 1]
+
+/-- thread 0 gets as far as the built message (8 steps), then connection 3 is registered, then the notification:
+connection 3 is among the listeners -/
+def exSchedB : List Tid := List.replicate 8 0 ++ [1, 1, 1] ++ List.replicate 6 0 ++ [1, 1, 1, 1]
+
+/-- the whole activation first: snapshot `5`, then the update `6` -/
+def exSchedC : List Tid := List.replicate 7 1 ++ List.replicate 14 0
+
+example : (runSched exCfgA exSA exSchedA).map (fun s => ((s.logs 3 0).map (·.msg.ve), (s.logs 1 0).map (·.msg.ve),
+    s.lock)) = some ([.val 6, .val 6], [.val 6], none) := by decide
+example : (runSched exCfgA exSA exSchedA).map (fun s => (s.snapped 3 0, s.act 3 0, s.dlock)) =
+    some (true, true, none) := by decide
+example : (runSched exCfgA exSA exSchedB).map (fun s => ((s.logs 3 0).map (·.msg.ve), (s.logs 2 0).map (·.msg.ve))) =
+    some ([.val 6, .val 6], [.val 6]) := by decide
+example : (runSched exCfgA exSA exSchedC).map (fun s => ((s.logs 3 0).map (·.msg.ve), (s.entries 0).ve)) =
+    some ([.val 5, .val 6], .val 6) := by decide
+/-- the snapshot waits for the update lock: thread 1 is blocked at `acquire` while thread 0 is inside the funnel -/
+example : (runSched exCfgA exSA [1, 1, 1, 0, 1]).isNone = true := by decide
+
+/-- the hypotheses of `activation_coherent` / `conc_ok_activation` are satisfiable by a state in which a connection
+activated during the run has a non-trivial log -/
+example : ∃ s, Reach exCfgA exSA s ∧ s.lock = none ∧ Sub exCfgA s 3 0 ∧ known0 exCfgA (fun v => v) exInit 3 0 = none ∧
+    (s.logs 3 0).map (·.msg.ve) = [.val 5, .val 6] := by
+  have hd : (runSched exCfgA exSA exSchedC).map (fun s => (s.lock, s.snapped 3 0, (s.logs 3 0).map (·.msg.ve))) =
+      some (none, true, [.val 5, .val 6]) := by decide
+  cases h : runSched exCfgA exSA exSchedC with
+  | none => rw [h] at hd; cases hd
+  | some s =>
+    rw [h] at hd
+    simp only [Option.map_some, Option.some.injEq, Prod.mk.injEq] at hd
+    exact ⟨s, reach_of_runSched _ _ _ _ .start _ h, hd.1, ⟨by decide, Or.inr hd.2.1⟩, by decide, hd.2.2⟩
 
 end examples
 
